@@ -7,6 +7,18 @@ from vlib.impl import Avh, Sandbox
 from vlib import world
 
 HEADER = 'From AP Require Import Corr.Check_C18.\nOpen Scope N_scope.\n'
+
+class SB(Sandbox):
+    """Sandbox whose CLI calls survive the moment in which a concurrent check relinks the shared binary"""
+    def cli(self, args, **kw):
+        import time
+        for attempt in range(60):
+            try:
+                return Sandbox.cli(self, args, **kw)
+            except (FileNotFoundError, PermissionError, OSError) as e:
+                if attempt == 59 or not isinstance(e, (FileNotFoundError, PermissionError)) and getattr(e, 'errno', None) != 26:
+                    raise
+                time.sleep(1.0)
 T_FILE = '(list str * list N * str)'
 T_ENTRY = '(str * str * N)'
 T_TREE = 'list str * bool * list %s * list %s * str' % (T_FILE, T_ENTRY)
@@ -529,7 +541,7 @@ def run_lock_stream(ctx, nscen, seeds=None):
     for i in range(nscen):
         seed = seeds[i] if seeds else ctx.rng.getrandbits(48)
         rng = random.Random(seed)
-        sb = Sandbox('c18l')
+        sb = SB('c18l')
         try:
             sb.git_init_project()
             mods, w = gen_local_world(rng, sb)
@@ -741,7 +753,7 @@ def run_git_stream(ctx, nscen, seeds=None):
     for i in range(nscen):
         seed = seeds[i] if seeds else ctx.rng.getrandbits(48)
         rng = random.Random(seed)
-        sb = Sandbox('c18g')
+        sb = SB('c18g')
         try:
             sb.git_init_project()
             gw = GitWorld(sb, rng)
